@@ -38,9 +38,12 @@ RULE = (
     "(non-singlet / singlet / valence dispatchers on the (1-4)x(1-2) grid, running and fixed alpha_em), every function of "
     "the unpolarised space-like anomalous-dimension modules as1/as2 and matching modules as1/as2 (found by introspection, "
     "arguments by parameter name); thorough tier adds quad_ker_ad / quad_ker_ome on random (u, label, configuration) and a "
-    "tiny end-to-end solve.  Inputs: N on the solver's Talbot contours (eko.mellin.Path) and off-contour (box Re N in [-6,40], "
+    "tiny end-to-end solve.  The DISCRETE coordinates of every group are enumerated in full in every run (function x orders "
+    "x method x nf 3-6 x running/fixed alpha_em x sector label ...; e.g. qcd_kernels = 468 combinations, so that nf-dependent "
+    "sign patterns of the beta coefficients such as the negative NNLO discriminant at nf = 6 meet every exact kernel), "
+    "Hypothesis draws the continuous rest, 1-2 repetitions per combination (quick) / 5-10 (thorough).  Inputs: N on the solver's Talbot contours (eko.mellin.Path) and off-contour (box Re N in [-6,40], "
     "|Im N| <= 40, at least 0.75 away from the poles at the integers <= 1; the contours keep >= 0.9), couplings "
-    "log-uniform in [0.002,0.05], random complex gamma towers |gamma_k| <= 10^(k+1), jittered log grids.  Oracle: same "
+    "log-uniform in [0.002,0.05], random complex gamma towers |gamma_k| <= 10^(k+1), jittered log grids, N-space basis functions at (x in the grid range, N on / near the contour built for that x).  Oracle: same "
     "structure and shape; integers / booleans identical; floats within 1e-12 of the largest modulus of the same array; an "
     "exception on one side only, a numba compile/typing error, or a crash of the compiled worker is a violation.  "
     "Non-trivial = both sides returned a floating-point result (not an agreed refusal); distinct by (function, arguments)."
@@ -82,8 +85,12 @@ SCALE_FLOOR = {"interpolation": 1.0, "harmonics": 1.0, "ad_as12": 1.0, "ome_as12
 TOL_GROUP = {"quad_ker_ad": 1e-10, "quad_ker_ome": 1e-10, "solve": 1e-10}
 QUICK_GROUPS = ("qcd_kernels", "ome_as12", "ad_as12", "qed_kernels", "harmonics", "scale_variations", "couplings", "interpolation")
 THOROUGH_GROUPS = ("quad_ker_ad", "quad_ker_ome", "solve") + QUICK_GROUPS
-N_CASES = {"quick": 200, "thorough": 1500}
-N_CASES_SLOW = {"quad_ker_ad": 300, "quad_ker_ome": 300, "solve": 2}
+# repetitions of the full discrete product of each group (sizes: qcd_kernels 468, qed_kernels 230, scale_variations 256,
+# couplings 160, harmonics 210, ad_as12 128, ome_as12 104, interpolation 90, quad_ker_ad 166, quad_ker_ome 156, solve 2)
+REPS = {
+    "quick": {"*": 1, "ad_as12": 2, "ome_as12": 2},
+    "thorough": {"*": 5, "ad_as12": 10, "ome_as12": 10, "quad_ker_ad": 2, "quad_ker_ome": 2, "solve": 1},
+}
 
 
 def groups(tier):
@@ -284,32 +291,37 @@ def st_apair():
     return st.builds(mk, st_coupling(0.004, 0.03), unit(), st.booleans())
 
 
-def st_gamma_vec(n):
+def _rng_disc(rng, rmax, shape):
+    r = rng.uniform(0.0, 1.0, shape) * rmax
+    ph = rng.uniform(0.0, 2 * math.pi, shape)
+    return np.stack([r * np.cos(ph), r * np.sin(ph)], axis=-1)
+
+
+def _seeded(build):
+    """Strategy: one Hypothesis-drawn integer seeds a numpy Generator that builds the (large) array."""
     st = _st()
-    return st.tuples(*[st_cdisc(10.0 ** (k + 1)) for k in range(n)]).map(list)
+    return st.integers(0, 2**32 - 1).map(lambda sd: build(np.random.default_rng(sd)))
+
+
+def st_gamma_vec(n):
+    """[n][2]: |gamma_k| <= 10^(k+1)."""
+    return _seeded(lambda rng: [_rng_disc(rng, 10.0 ** (k + 1), ()).tolist() for k in range(n)])
 
 
 def st_gamma_mat(n, dim):
-    st = _st()
-    return st.tuples(
-        *[st.lists(st.lists(st_cdisc(10.0 ** (k + 1)), min_size=dim, max_size=dim), min_size=dim, max_size=dim) for k in range(n)]
-    ).map(list)
+    """[n][dim][dim][2]: |gamma_k| <= 10^(k+1)."""
+    return _seeded(lambda rng: [_rng_disc(rng, 10.0 ** (k + 1), (dim, dim)).tolist() for k in range(n)])
 
 
 def st_gamma_grid(o0, o1, dim=None):
     """(o0+1, o1+1[, dim, dim]) tower with the (0,0) slot zero and |gamma_ij| <= 10^(i+j)."""
-    st = _st()
-    rows = []
-    for i in range(o0 + 1):
-        row = []
-        for j in range(o1 + 1):
-            mag = 0.0 if i == j == 0 else 10.0 ** (i + j)
-            if dim is None:
-                row.append(st_cdisc(mag))
-            else:
-                row.append(st.lists(st.lists(st_cdisc(mag), min_size=dim, max_size=dim), min_size=dim, max_size=dim))
-        rows.append(st.tuples(*row).map(list))
-    return st.tuples(*rows).map(list)
+    shape = () if dim is None else (dim, dim)
+
+    def build(rng):
+        return [[_rng_disc(rng, 0.0 if i == j == 0 else 10.0 ** (i + j), shape).tolist() for j in range(o1 + 1)]
+                for i in range(o0 + 1)]
+
+    return _seeded(build)
 
 
 def carr(x):
@@ -344,52 +356,56 @@ EI_FUNCS = {  # name -> (needs b_vec, minimal length of b_vec)
 }
 
 
-def strat_qcd_kernels(tier):
+def combos_qcd_kernels(tier):
+    """The full discrete product (function, order, method, nf): every kernel at every nf (the beta coefficients change
+    sign pattern with nf: e.g. the NNLO discriminant 4 b2 - b1^2 is negative only for nf = 6)."""
+    out = []
+    for nf in (3, 4, 5, 6):
+        for o in (1, 2, 3, 4):
+            for method in range(1, 9):
+                out.append({"fn": "ns.dispatcher", "o": o, "method": method, "nf": nf})
+                out.append({"fn": "s.dispatcher", "o": o, "method": method, "nf": nf})
+        for name, o in sorted(NS_DIRECT.items()):
+            out.append({"fn": "ns." + name, "o": o, "nf": nf})
+        for name in ("eko_ordered_truncated", "eko_truncated", "U_vec"):
+            for o in (2, 3, 4):
+                out.append({"fn": "ns." + name, "o": o, "nf": nf})
+        for name, o in sorted(S_DIRECT_BETA.items()):
+            out.append({"fn": "s." + name, "o": o, "nf": nf})
+        for name in ("n3lo_decompose_exact", "n3lo_decompose_expanded"):
+            out.append({"fn": "s." + name, "o": 4, "nf": nf})
+        for name in ("eko_iterate", "eko_perturbative", "eko_truncated"):
+            for o in (2, 3, 4):
+                out.append({"fn": "s." + name, "o": o, "nf": nf})
+        for name in sorted(EI_FUNCS):
+            out.append({"fn": "ei." + name, "nf": nf})
+        for name in ("roots", "derivative", "j33_exact", "j23_exact", "j13_exact", "j03_exact", "j33_expanded", "j23_expanded",
+                     "j13_expanded", "j03_expanded"):
+            out.append({"fn": "ei4." + name, "nf": nf})
+    return out
+
+
+def strat_qcd_kernels(pin):
     st = _st()
+    fn, nf = pin["fn"], pin["nf"]
+    o = pin.get("o", 1)
+    mod = fn.split(".")[0]
 
     @st.composite
-    def ns_disp(draw):
-        o = draw(st.sampled_from((1, 2, 3, 4, 4)))
-        return {"fn": "ns.dispatcher", "args": {
-            "order": [o, 0], "method": draw(st.integers(1, 8)), "gamma": draw(st_gamma_vec(o)), "a": draw(st_apair()),
-            "nf": draw(st.integers(3, 6))}}
+    def one(draw):
+        args = {"nf": nf, "a": draw(st_apair())}
+        if mod in ("ns", "s"):
+            args["order"] = [o, 0]
+            args["gamma"] = draw(st_gamma_vec(o) if mod == "ns" else st_gamma_mat(o, 2))
+            args["method"] = pin.get("method", 1)
+            args["iters"] = draw(st.integers(1, 4))
+            args["max_order"] = [draw(st.integers(o, o + 4)), 0]
+            args["exact"] = draw(st.booleans())
+        else:
+            args["r"] = draw(st_cdisc(5.0))
+        return {"fn": fn, "args": args}
 
-    @st.composite
-    def s_disp(draw):
-        o = draw(st.sampled_from((1, 2, 3, 4, 4)))
-        return {"fn": "s.dispatcher", "args": {
-            "order": [o, 0], "method": draw(st.integers(1, 8)), "gamma": draw(st_gamma_mat(o, 2)), "a": draw(st_apair()),
-            "nf": draw(st.integers(3, 6)), "iters": draw(st.integers(1, 4)), "max_order": [draw(st.integers(o, o + 4)), 0]}}
-
-    @st.composite
-    def ns_direct(draw):
-        name = draw(st.sampled_from(sorted(NS_DIRECT) + ["eko_ordered_truncated", "eko_truncated", "U_vec"]))
-        o = NS_DIRECT.get(name) or draw(st.integers(2, 4))
-        return {"fn": "ns." + name, "args": {
-            "order": [o, 0], "gamma": draw(st_gamma_vec(o)), "a": draw(st_apair()), "nf": draw(st.integers(3, 6))}}
-
-    @st.composite
-    def s_direct(draw):
-        name = draw(st.sampled_from(
-            sorted(S_DIRECT_BETA) + ["n3lo_decompose_exact", "n3lo_decompose_expanded", "eko_iterate", "eko_perturbative", "eko_truncated"]
-        ))
-        o = S_DIRECT_BETA.get(name) or (4 if name.startswith("n3lo") else draw(st.integers(2, 4)))
-        return {"fn": "s." + name, "args": {
-            "order": [o, 0], "gamma": draw(st_gamma_mat(o, 2)), "a": draw(st_apair()), "nf": draw(st.integers(3, 6)),
-            "iters": draw(st.integers(1, 4)), "max_order": [draw(st.integers(o, o + 4)), 0], "exact": draw(st.booleans())}}
-
-    @st.composite
-    def ei(draw):
-        name = draw(st.sampled_from(sorted(EI_FUNCS)))
-        return {"fn": "ei." + name, "args": {"a": draw(st_apair()), "nf": draw(st.integers(3, 6))}}
-
-    @st.composite
-    def ei4(draw):
-        name = draw(st.sampled_from(("roots", "derivative", "j33_exact", "j23_exact", "j13_exact", "j03_exact", "j33_expanded",
-                                     "j23_expanded", "j13_expanded", "j03_expanded")))
-        return {"fn": "ei4." + name, "args": {"a": draw(st_apair()), "nf": draw(st.integers(3, 6)), "r": draw(st_cdisc(5.0))}}
-
-    return st.one_of(ns_disp(), ns_disp(), s_disp(), s_disp(), s_disp(), ns_direct(), s_direct(), ei(), ei4())
+    return one()
 
 
 def call_qcd_kernels(fn, a):
@@ -456,37 +472,49 @@ def call_qcd_kernels(fn, a):
 # ------------------------------------------------------------------------------------------- QED kernels
 
 
-def strat_qed_kernels(tier):
+def combos_qed_kernels(tier):
+    out = []
+    for nf in (3, 4, 5, 6):
+        for o0 in (1, 2, 3, 4):
+            for o1 in (1, 2):
+                for which in ("ns", "singlet", "valence"):
+                    for running in (False, True):
+                        out.append({"fn": which + "_qed.dispatcher", "o0": o0, "o1": o1, "nf": nf, "running": running, "method": 1})
+                out.append({"fn": "ns_qed.fixed_alphaem_exact", "o0": o0, "o1": o1, "nf": nf})
+    for which in ("ns", "singlet", "valence"):  # the documented refusal of the other methods
+        for method in (2, 5):
+            out.append({"fn": which + "_qed.dispatcher", "o0": 2, "o1": 1, "nf": 4, "running": False, "method": method})
+    return out
+
+
+def strat_qed_kernels(pin):
     st = _st()
+    fn, o0, o1, nf = pin["fn"], pin["o0"], pin["o1"], pin["nf"]
+    mu = unit().map(lambda u: 10.0 ** (4 * u))
 
     @st.composite
     def disp(draw):
-        which = draw(st.sampled_from(("ns", "ns", "singlet", "valence")))
-        o0, o1 = draw(st.integers(1, 4)), draw(st.integers(1, 2))
+        which = fn.split("_")[0]
         steps = draw(st.integers(1, 4))
         a1, a0 = draw(st_apair())
         fr = sorted(draw(st.lists(unit(), min_size=steps - 1, max_size=steps - 1)))
         as_list = [a0 * (a1 / a0) ** f for f in [0.0] + fr + [1.0]]
         aem = draw(st_coupling(1e-4, 5e-3))
-        running = draw(st.booleans())
-        a_half = []
-        for k in range(steps):
-            a_half.append([math.sqrt(as_list[k] * as_list[k + 1]), aem * (1 + 0.01 * k if running else 1.0)])
+        running = pin["running"]
+        a_half = [[math.sqrt(as_list[k] * as_list[k + 1]), aem * (1 + 0.01 * k if running else 1.0)] for k in range(steps)]
         dim = {"ns": None, "singlet": 4, "valence": 2}[which]
-        mu = sorted([draw(unit().map(lambda u: 10.0 ** (4 * u))), draw(unit().map(lambda u: 10.0 ** (4 * u)))])
-        return {"fn": which + "_qed.dispatcher", "args": {
+        m = sorted([draw(mu), draw(mu)])
+        return {"fn": fn, "args": {
             "order": [o0, o1], "gamma": draw(st_gamma_grid(o0, o1, dim)), "as_list": as_list, "a_half": a_half,
-            "running": running, "nf": draw(st.integers(3, 6)), "steps": steps, "mu2": [mu[0], mu[1] * 1.01],
-            "method": draw(st.sampled_from((1, 1, 1, 2, 5)))}}
+            "running": running, "nf": nf, "steps": steps, "mu2": [m[0], m[1] * 1.01], "method": pin["method"]}}
 
     @st.composite
     def fixed(draw):
-        o0, o1 = draw(st.integers(1, 4)), draw(st.integers(1, 2))
-        return {"fn": "ns_qed.fixed_alphaem_exact", "args": {
+        return {"fn": fn, "args": {
             "order": [o0, o1], "gamma": draw(st_gamma_grid(o0, o1)), "a": draw(st_apair()), "aem": draw(st_coupling(1e-4, 5e-3)),
-            "nf": draw(st.integers(3, 6)), "mu2": [draw(unit().map(lambda u: 10.0 ** (4 * u))), draw(unit().map(lambda u: 10.0 ** (4 * u)))]}}
+            "nf": nf, "mu2": [draw(mu), draw(mu)]}}
 
-    return st.one_of(disp(), disp(), disp(), disp(), fixed())
+    return fixed() if fn.endswith("fixed_alphaem_exact") else disp()
 
 
 def call_qed_kernels(fn, a):
@@ -513,42 +541,65 @@ def call_qed_kernels(fn, a):
 # ------------------------------------------------------------------------------------------- interpolation + Mellin
 
 
-def strat_interpolation(tier):
+def combos_interpolation(tier):
+    out = []
+    for rep in range(3):
+        for log in (False, True):
+            for deg in (1, 2, 3, 4):
+                out.append({"fn": "interpolation.evaluate_grid", "log": log, "deg": deg, "rep": rep})
+                out.append({"fn": "interpolation.evaluate_x", "log": log, "deg": deg, "rep": rep})
+        for name in ("Talbot_path", "Talbot_jac", "line_path", "line_jac", "edge_path", "edge_jac", "Path"):
+            for singlet in (False, True):
+                out.append({"fn": "mellin." + name, "singlet": singlet, "rep": rep})
+    return out
+
+
+def strat_interpolation(pin):
     st = _st()
+    fn = pin["fn"]
 
     @st.composite
     def grid(draw):
-        npts = draw(st.integers(3, 9))
+        deg = pin["deg"]
+        npts = draw(st.integers(max(3, deg + 1), 9))
         xmin = 10.0 ** (-1 - 5 * draw(unit()))
         jit = [draw(unit()) for _ in range(npts)]
         lg = [math.log(xmin) * (1 - (i + 0.3 * (jit[i] - 0.5) * (0 < i < npts - 1)) / (npts - 1)) for i in range(npts)]
         xs = [math.exp(v) for v in lg]
         xs[-1] = 1.0
-        deg = draw(st.integers(1, min(4, npts - 1)))
-        return {"xgrid": xs, "deg": deg, "log": draw(st.booleans()), "j": draw(st.integers(0, npts - 1))}
+        return {"xgrid": xs, "deg": deg, "log": pin["log"], "j": draw(st.integers(0, npts - 1))}
 
     @st.composite
     def evaln(draw):
+        from eko import mellin
+
         g = draw(grid())
-        g.update({"n": draw(st_n()), "logx": math.log(1e-6) * draw(unit())})
-        return {"fn": "interpolation.evaluate_grid", "args": g}
+        # the solver evaluates the basis functions at grid points x_k and at N on the contour built for that x_k; there
+        # |N ln x| stays moderate.  An unrelated (N, x) pair (observed: x far below the grid, |N ln x| = 217, value 3e32)
+        # amplifies the rounding of the exponent beyond 1e-12 without any semantic difference.
+        logx = math.log(g["xgrid"][0]) * draw(unit())
+        n = complex(mellin.Path(0.5 + 0.45 * draw(unit()), logx, draw(st.booleans())).n) * (0.8 + 0.4 * draw(unit()))
+        g.update({"n": [n.real, n.imag], "logx": logx})
+        return {"fn": fn, "args": g}
 
     @st.composite
     def evalx(draw):
         g = draw(grid())
         lo = g["xgrid"][0]
-        g["x"] = draw(st.one_of(unit().map(lambda u: lo * (1.0 / lo) ** u), st.sampled_from(g["xgrid"])))
-        return {"fn": "interpolation.evaluate_x", "args": g}
+        g["x"] = draw(st.one_of(unit().map(lambda u: lo * (1.0 / lo) ** u), unit().map(lambda u: lo * (1.0 / lo) ** u),
+                                st.sampled_from(g["xgrid"])))
+        return {"fn": fn, "args": g}
 
     @st.composite
     def path(draw):
-        name = draw(st.sampled_from(("Talbot_path", "Talbot_jac", "line_path", "line_jac", "edge_path", "edge_jac", "Path", "Path")))
-        return {"fn": "mellin." + name, "args": {
-            "t": draw(st.one_of(unit(), st.just(0.5))), "r": 0.1 + 60 * draw(unit()), "o": draw(st.sampled_from((0.0, 1.0))),
-            "m": 0.1 + 10 * draw(unit()), "c": 0.5 + 2 * draw(unit()), "phi": 0.3 + 2.5 * draw(unit()),
-            "logx": math.log(1e-7) * draw(unit()), "singlet": draw(st.booleans())}}
+        return {"fn": fn, "args": {
+            "t": draw(st.one_of(unit(), unit(), unit(), st.just(0.5))), "r": 0.1 + 60 * draw(unit()),
+            "o": 1.0 if pin["singlet"] else 0.0, "m": 0.1 + 10 * draw(unit()), "c": 0.5 + 2 * draw(unit()),
+            "phi": 0.3 + 2.5 * draw(unit()), "logx": math.log(1e-7) * draw(unit()), "singlet": pin["singlet"]}}
 
-    return st.one_of(evaln(), evaln(), evalx(), path())
+    if fn.startswith("mellin."):
+        return path()
+    return evaln() if fn.endswith("evaluate_grid") else evalx()
 
 
 def call_interpolation(fn, a):
@@ -578,19 +629,30 @@ def call_interpolation(fn, a):
 # ------------------------------------------------------------------------------------------- couplings
 
 
-def strat_couplings(tier):
+def combos_couplings(tier):
+    out = []
+    for nf in (3, 4, 5, 6):
+        for name in ("exact_lo", "expanded_nlo", "expanded_nnlo", "expanded_n3lo"):
+            out.append({"fn": "couplings." + name, "nf": nf, "o0": 1, "o1": 0})
+        for o0 in (1, 2, 3, 4):
+            out.append({"fn": "couplings.expanded_qcd", "nf": nf, "o0": o0, "o1": 0})
+            for o1 in (0, 1, 2):
+                if o1:
+                    out.append({"fn": "couplings.expanded_qed", "nf": nf, "o0": o0, "o1": o1})
+                out.append({"fn": "couplings.couplings_expanded_alphaem_running", "nf": nf, "o0": o0, "o1": o1})
+                out.append({"fn": "couplings.couplings_expanded_fixed_alphaem", "nf": nf, "o0": o0, "o1": o1})
+    return out
+
+
+def strat_couplings(pin):
     st = _st()
 
     @st.composite
     def one(draw):
-        name = draw(st.sampled_from((
-            "exact_lo", "expanded_nlo", "expanded_nnlo", "expanded_n3lo", "expanded_qcd", "expanded_qed",
-            "couplings_expanded_alphaem_running", "couplings_expanded_alphaem_running", "couplings_expanded_fixed_alphaem",
-        )))
-        return {"fn": "couplings." + name, "args": {
-            "ref": draw(st_coupling(0.005, 0.04)), "aem": draw(st_coupling(3e-4, 1e-3)), "nf": draw(st.integers(3, 6)),
-            "nl": draw(st.integers(0, 3)), "order": [draw(st.integers(1, 4)), draw(st.integers(0, 2))],
-            "lmu": -3 + 9 * draw(unit()), "decoupled": draw(st.booleans())}}
+        return {"fn": pin["fn"], "args": {
+            "ref": draw(st_coupling(0.005, 0.04)), "aem": draw(st_coupling(3e-4, 1e-3)), "nf": pin["nf"],
+            "nl": draw(st.integers(0, 3)), "order": [pin["o0"], pin["o1"]], "lmu": -3 + 9 * draw(unit()),
+            "decoupled": draw(st.booleans())}}
 
     return one()
 
@@ -628,30 +690,42 @@ def call_couplings(fn, a):
 # ------------------------------------------------------------------------------------------- scale variations
 
 
-def strat_scale_variations(tier):
+SV_FUNCS = (
+    "expanded.non_singlet_variation", "expanded.singlet_variation", "expanded.non_singlet_variation_qed",
+    "expanded.singlet_variation_qed", "expanded.valence_variation_qed", "exponentiated.gamma_variation:ns",
+    "exponentiated.gamma_variation:s", "exponentiated.gamma_variation_qed:ns", "exponentiated.gamma_variation_qed:s",
+    "exponentiated.gamma_variation_qed:v",
+)
+
+
+def combos_scale_variations(tier):
+    out = []
+    for nf in (3, 4, 5, 6):
+        for name in SV_FUNCS:
+            for o0 in (1, 2, 3, 4):
+                for o1 in ((1, 2) if "qed" in name else (0,)):
+                    out.append({"fn": "sv." + name, "nf": nf, "o0": o0, "o1": o1, "running": (nf + o0 + o1) % 2 == 0})
+    return out
+
+
+def strat_scale_variations(pin):
     st = _st()
+    name = pin["fn"][3:]
+    qed = "qed" in name
+    o0, o1 = pin["o0"], pin["o1"]
+    kind = "ns" if ("non_singlet" in name or name.endswith(":ns")) else ("v" if ("valence" in name or name.endswith(":v")) else "s")
+    dim = {"ns": None, "s": 4 if qed else 2, "v": 2}[kind]
 
     @st.composite
     def one(draw):
-        name = draw(st.sampled_from((
-            "expanded.non_singlet_variation", "expanded.singlet_variation", "expanded.non_singlet_variation_qed",
-            "expanded.singlet_variation_qed", "expanded.valence_variation_qed", "exponentiated.gamma_variation:ns",
-            "exponentiated.gamma_variation:s", "exponentiated.gamma_variation_qed:ns", "exponentiated.gamma_variation_qed:s",
-            "exponentiated.gamma_variation_qed:v",
-        )))
-        qed = "qed" in name
-        o0 = draw(st.integers(1, 4))
-        o1 = draw(st.integers(1, 2)) if qed else 0
-        kind = "ns" if ("non_singlet" in name or name.endswith(":ns")) else ("v" if ("valence" in name or name.endswith(":v")) else "s")
-        dim = {"ns": None, "s": 4 if qed else 2, "v": 2}[kind]
         if qed:
             gamma = draw(st_gamma_grid(o0, o1, dim))
         else:
             gamma = draw(st_gamma_vec(o0) if dim is None else st_gamma_mat(o0, dim))
-        return {"fn": "sv." + name, "args": {
+        return {"fn": pin["fn"], "args": {
             "order": [o0, o1], "gamma": gamma, "a_s": draw(st_coupling()), "a_em": draw(st_coupling(3e-4, 1e-3)),
-            "nf": draw(st.integers(3, 6)), "nl": draw(st.integers(2, 3)), "L": -2.8 + 5.6 * draw(unit()),
-            "running": draw(st.booleans()), "dim": dim or 1}}
+            "nf": pin["nf"], "nl": draw(st.integers(2, 3)), "L": -2.8 + 5.6 * draw(unit()), "running": pin["running"],
+            "dim": dim or 1}}
 
     return one()
 
@@ -708,31 +782,42 @@ def cache_key_names():
     return sorted(set(names) | set(CACHE_KEYS))
 
 
-def strat_harmonics(tier):
+def combos_harmonics(tier):
+    out = []
+    for rep in range(2):
+        for key in cache_key_names():
+            for singlet in (False, True):
+                out.append({"fn": "cache.get:" + key, "singlet": singlet, "rep": rep})
+        for name, ns in harmonic_function_names():
+            out.append({"fn": name, "nS": ns, "singlet": bool(rep), "rep": rep})
+        for K in range(5):
+            out.append({"fn": "polygamma.cern_polygamma", "K": K, "singlet": bool(rep), "rep": rep})
+        for weight in range(1, 6):
+            out.append({"fn": "polygamma.recursive_harmonic_sum", "weight": weight, "singlet": bool(rep), "rep": rep})
+        for singlet in (False, True):
+            out.append({"fn": "polygamma.symmetry_factor", "singlet": singlet, "rep": rep})
+            for k in range(4):
+                out.append({"fn": "cache.get:sequence", "singlet": singlet, "rep": rep, "k": k})
+    return out
+
+
+def strat_harmonics(pin):
     st = _st()
     keys = cache_key_names()
-    direct = harmonic_function_names()
 
     @st.composite
     def one(draw):
-        kind = draw(st.sampled_from(("cache", "cache", "cache", "direct", "direct", "polygamma", "rhs", "symmetry", "reuse")))
-        args = {"n": draw(st_n()), "singlet": draw(st.booleans())}
-        if kind == "cache":
-            return {"fn": "cache.get:" + draw(st.sampled_from(keys)), "args": args}
-        if kind == "reuse":
+        fn = pin["fn"]
+        args = {"n": draw(st_n()), "singlet": pin["singlet"]}
+        if fn == "cache.get:sequence":
             args["keys"] = draw(st.lists(st.sampled_from(keys), min_size=2, max_size=6))
-            return {"fn": "cache.get:sequence", "args": args}
-        if kind == "direct":
-            name, ns = draw(st.sampled_from(direct))
-            args["nS"] = ns
-            return {"fn": name, "args": args}
-        if kind == "polygamma":
-            args["K"] = draw(st.integers(0, 4))
-            return {"fn": "polygamma.cern_polygamma", "args": args}
-        if kind == "rhs":
-            args.update({"base": draw(st_cdisc(5.0)), "iterations": draw(st.integers(0, 4)), "weight": draw(st.integers(1, 5))})
-            return {"fn": "polygamma.recursive_harmonic_sum", "args": args}
-        return {"fn": "polygamma.symmetry_factor", "args": args}
+        elif "nS" in pin:
+            args["nS"] = pin["nS"]
+        elif fn == "polygamma.cern_polygamma":
+            args["K"] = pin["K"]
+        elif fn == "polygamma.recursive_harmonic_sum":
+            args.update({"base": draw(st_cdisc(5.0)), "iterations": draw(st.integers(0, 4)), "weight": pin["weight"]})
+        return {"fn": fn, "args": args}
 
     return one()
 
@@ -789,22 +874,31 @@ def ekore_functions(group):
     return out
 
 
-def strat_ekore(group):
+def combos_ekore(group):
     def make(tier):
-        st = _st()
-        funcs = ekore_functions(group)
-
-        @st.composite
-        def one(draw):
-            name, params = draw(st.sampled_from(funcs))
-            singlet_like = any(s in name for s in ("singlet", "_gg", "_qg", "_gq", "_ps", "_hg", "_hq", "_gh", "_hh"))
-            return {"fn": name, "args": {
-                "params": params, "n": draw(st_n(singlet_like or None)), "nf": draw(st.integers(3, 6)),
-                "L": draw(st.one_of(unit().map(lambda u: -3 + 6 * u), st.just(0.0))), "is_msbar": draw(st.booleans())}}
-
-        return one()
+        out = []
+        for rep in range(2):
+            for name, params in ekore_functions(group):
+                for nf in (3, 4, 5, 6):
+                    out.append({"fn": name, "params": params, "nf": nf, "is_msbar": bool((nf + rep) % 2), "rep": rep})
+        return out
 
     return make
+
+
+def strat_ekore(pin):
+    st = _st()
+    name = pin["fn"]
+    singlet_like = any(s in name for s in ("singlet", "_gg", "_qg", "_gq", "_ps", "_hg", "_hq", "_gh", "_hh"))
+
+    @st.composite
+    def one(draw):
+        return {"fn": name, "args": {
+            "params": pin["params"], "n": draw(st_n(singlet_like or None)), "nf": pin["nf"],
+            "L": draw(st.one_of(unit().map(lambda u: -3 + 6 * u), unit().map(lambda u: -3 + 6 * u), st.just(0.0))),
+            "is_msbar": pin["is_msbar"]}}
+
+    return one()
 
 
 def call_ekore(fn, a):
@@ -839,28 +933,39 @@ def _grid_args(draw, st):
     return {"xgrid": xs, "deg": draw(st.integers(1, min(3, npts - 1))), "log": draw(st.booleans()), "j": j, "k": k}
 
 
-def strat_quad_ker_ad(tier):
+def combos_quad_ker_ad(tier):
+    """(kind, orders, label) in full; method, nf, scale-variation mode cycled so that every value meets every order."""
+    out = []
+    i = 0
+    for kind, orders, labels in (
+        ("unpol", [(o, 0) for o in (1, 2, 3, 4)], AD_LABELS_QCD), ("pol", [(o, 0) for o in (1, 2, 3)], AD_LABELS_QCD),
+        ("tl", [(o, 0) for o in (1, 2, 3)], AD_LABELS_QCD), ("qed", [(o, e) for o in (1, 2, 3, 4) for e in (1, 2)], AD_LABELS_QED),
+    ):
+        for order in orders:
+            for label in labels:
+                out.append({"kind": kind, "order": list(order), "label": list(label), "method": 1 if kind == "qed" else 1 + i % 8,
+                            "nf": 3 + (i // 3) % 4, "sv": 1 + i % 3, "fhmruvv": i % 5 != 0})
+                i += 7  # co-prime with 8, 3, 4: decorrelates the cycled coordinates from the loop structure
+    return out
+
+
+def strat_quad_ker_ad(pin):
     st = _st()
 
     @st.composite
     def one(draw):
-        qed = draw(st.sampled_from((0, 0, 1, 2)))
-        pol = draw(st.sampled_from((False, False, False, True))) if not qed else False
-        tl = draw(st.sampled_from((False, False, False, True))) if not (qed or pol) else False
-        o0 = draw(st.integers(1, 3 if (pol or tl) else 4))
         steps = draw(st.integers(1, 3))
         a1, a0 = draw(st_apair())
         as_list = [a0 * (a1 / a0) ** (i / steps) for i in range(steps + 1)]
         aem = draw(st_coupling(3e-4, 1e-3))
+        o0 = pin["order"][0]
         g = _grid_args(draw, st)
         g.update({
-            "u": 0.5 + 0.45 * draw(unit()), "order": [o0, qed],
-            "label": list(draw(st.sampled_from(AD_LABELS_QED if qed else AD_LABELS_QCD))),
-            "method": 1 if qed else draw(st.integers(1, 8)), "as_list": as_list,
+            "u": 0.5 + 0.45 * draw(unit()), "order": pin["order"], "label": pin["label"], "method": pin["method"], "as_list": as_list,
             "a_half": [[math.sqrt(as_list[i] * as_list[i + 1]), aem] for i in range(steps)], "running": draw(st.booleans()),
-            "nf": draw(st.integers(3, 5)), "L": -1.5 + 3 * draw(unit()), "steps": steps, "max_order": [o0 + draw(st.integers(0, 3)), 0],
-            "sv": draw(st.sampled_from((1, 1, 2, 3))), "threshold": draw(st.booleans()),
-            "var": [draw(st.integers(0, 2)) for _ in range(7)], "pol": pol, "tl": tl, "fhmruvv": draw(st.sampled_from((True, True, False))),
+            "nf": pin["nf"], "L": -1.5 + 3 * draw(unit()), "steps": steps, "max_order": [o0 + draw(st.integers(0, 3)), 0],
+            "sv": pin["sv"], "threshold": draw(st.booleans()), "var": [draw(st.integers(0, 2)) for _ in range(7)],
+            "pol": pin["kind"] == "pol", "tl": pin["kind"] == "tl", "fhmruvv": pin["fhmruvv"],
             "mu2": [10.0, 10.0 * math.exp(3 * draw(unit()))],
         })
         return {"fn": "quad_ker.quad_ker_ad", "args": g}
@@ -868,20 +973,29 @@ def strat_quad_ker_ad(tier):
     return one()
 
 
-def strat_quad_ker_ome(tier):
+def combos_quad_ker_ome(tier):
+    out = []
+    i = 0
+    for rep in range(2):
+        for kind, orders in (("unpol", (1, 2, 3)), ("pol", (1, 2)), ("tl", (1,))):
+            for o0 in orders:
+                for label in OME_LABELS:
+                    out.append({"kind": kind, "order": [o0, 0], "label": list(label), "nf": 3 + (i // 3) % 3, "sv": 1 + i % 3,
+                                "backward": 1 + (i // 2) % 3, "msbar": bool(i % 2), "rep": rep})
+                    i += 7
+    return out
+
+
+def strat_quad_ker_ome(pin):
     st = _st()
 
     @st.composite
     def one(draw):
-        pol = draw(st.sampled_from((False, False, False, True)))
-        tl = draw(st.sampled_from((False, False, False, True))) if not pol else False
-        o0 = draw(st.integers(1, 1 if tl else (2 if pol else 3)))
         g = _grid_args(draw, st)
         g.update({
-            "u": 0.5 + 0.45 * draw(unit()), "order": [o0, 0], "label": list(draw(st.sampled_from(OME_LABELS))),
-            "a_s": draw(st_coupling()), "nf": draw(st.integers(3, 5)), "L": -1.5 + 3 * draw(unit()), "sv": draw(st.sampled_from((1, 1, 2, 3))),
-            "Lsv": -1.0 + 2 * draw(unit()), "backward": draw(st.sampled_from((1, 1, 2, 3))), "msbar": draw(st.booleans()),
-            "pol": pol, "tl": tl,
+            "u": 0.5 + 0.45 * draw(unit()), "order": pin["order"], "label": pin["label"], "a_s": draw(st_coupling()),
+            "nf": pin["nf"], "L": -1.5 + 3 * draw(unit()), "sv": pin["sv"], "Lsv": -1.0 + 2 * draw(unit()),
+            "backward": pin["backward"], "msbar": pin["msbar"], "pol": pin["kind"] == "pol", "tl": pin["kind"] == "tl",
         })
         return {"fn": "quad_ker.quad_ker_ome", "args": g}
 
@@ -933,12 +1047,12 @@ def call_quad_ker(fn, a):
     return (quad_ker.quad_ker_ome(*[vals[p] for p in params]), factor, peak)
 
 
-def strat_solve(tier):
-    st = _st()
-    return st.sampled_from((
-        {"fn": "solve", "args": {"order": [2, 0], "method": "iterate-exact"}},
-        {"fn": "solve", "args": {"order": [3, 0], "method": "truncated"}},
-    ))
+def combos_solve(tier):
+    return [{"order": [2, 0], "method": "iterate-exact"}, {"order": [3, 0], "method": "truncated"}]
+
+
+def strat_solve(pin):
+    return _st().just({"fn": "solve", "args": {"order": pin["order"], "method": pin["method"]}})
 
 
 def call_solve(fn, a):
@@ -954,8 +1068,14 @@ def call_solve(fn, a):
 STRATEGIES = {
     "qcd_kernels": strat_qcd_kernels, "qed_kernels": strat_qed_kernels, "interpolation": strat_interpolation,
     "couplings": strat_couplings, "scale_variations": strat_scale_variations, "harmonics": strat_harmonics,
-    "ad_as12": strat_ekore("ad_as12"), "ome_as12": strat_ekore("ome_as12"), "quad_ker_ad": strat_quad_ker_ad,
+    "ad_as12": strat_ekore, "ome_as12": strat_ekore, "quad_ker_ad": strat_quad_ker_ad,
     "quad_ker_ome": strat_quad_ker_ome, "solve": strat_solve,
+}
+COMBOS = {
+    "qcd_kernels": combos_qcd_kernels, "qed_kernels": combos_qed_kernels, "interpolation": combos_interpolation,
+    "couplings": combos_couplings, "scale_variations": combos_scale_variations, "harmonics": combos_harmonics,
+    "ad_as12": combos_ekore("ad_as12"), "ome_as12": combos_ekore("ome_as12"), "quad_ker_ad": combos_quad_ker_ad,
+    "quad_ker_ome": combos_quad_ker_ome, "solve": combos_solve,
 }
 CALLERS = {
     "qcd_kernels": call_qcd_kernels, "qed_kernels": call_qed_kernels, "interpolation": call_interpolation,
@@ -1152,28 +1272,38 @@ def run_group(group, cases, timeout):
     return out
 
 
-def draw_cases(group, tier, n, seed):
+def draw_cases(group, tier, reps, seed):
+    """One case per discrete combination and repetition: the discrete coordinates (function, orders, method, nf, ...)
+    are enumerated in full by COMBOS[group]; Hypothesis draws everything else."""
     import hypothesis
     from hypothesis import HealthCheck, Phase, given, settings
+    from hypothesis import strategies as st
 
-    got = []
+    combos = COMBOS[group](tier)
+    out, seen = [], set()
+    chunk = 8
+    for c0 in range(0, len(combos), chunk):
+        part = combos[c0:c0 + chunk]
+        got = []
 
-    @hypothesis.seed(seed)
-    @settings(max_examples=n, database=None, deadline=None, derandomize=False, suppress_health_check=list(HealthCheck),
-              phases=[Phase.generate], print_blob=False)
-    @given(STRATEGIES[group](tier))
-    def collect(cs):
-        cs = dict(cs)
-        cs["group"] = group
-        got.append(cs)
+        # max_examples = reps + 1: Hypothesis always starts with the all-minimal example (same for every seed), which is
+        # dropped unless nothing else was produced
+        @hypothesis.seed(seed * 100003 + c0)
+        @settings(max_examples=reps + 1, database=None, deadline=None, derandomize=False,
+                  suppress_health_check=list(HealthCheck), phases=[Phase.generate], print_blob=False)
+        @given(st.tuples(*[STRATEGIES[group](pin) for pin in part]))
+        def collect(tup):
+            got.append(tup)
 
-    collect()
-    seen, out = set(), []
-    for cs in got:
-        k = json.dumps(cs, sort_keys=True)
-        if k not in seen:
-            seen.add(k)
-            out.append(cs)
+        collect()
+        for tup in (got[1:] or got):
+            for cs in tup:
+                cs = dict(cs)
+                cs["group"] = group
+                k = json.dumps(cs, sort_keys=True)
+                if k not in seen:
+                    seen.add(k)
+                    out.append(cs)
     return out
 
 
@@ -1182,8 +1312,7 @@ def run_custom(tier, seed, shard, nshards, record):
     mine = [g for i, g in enumerate(gs) if i % nshards == shard]
     b = budget(tier)
     for g in mine:
-        n = N_CASES_SLOW.get(g, N_CASES[tier])
-        cases = draw_cases(g, tier, n, seed * 1000 + gs.index(g))
+        cases = draw_cases(g, tier, REPS[tier].get(g, REPS[tier]["*"]), seed * 1000 + gs.index(g))
         results = run_group(g, cases, timeout=b["wall_s"] * 4)
         for cs, r in zip(cases, results):
             if r is not None:
